@@ -284,7 +284,8 @@ func c20EdgeInputs(seed []byte) [][]byte {
 	return out
 }
 
-func c20Inputs(loader string, r *rand.Rand, n int) [][]byte {
+// grlChunk selects which tenth of the targeted documents a GRL case feeds.
+func c20Inputs(loader string, r *rand.Rand, n int, grlChunk int) [][]byte {
 	maxLen := 4096
 	if loader == "jsonfact" || loader == "grb" {
 		maxLen = 65536
@@ -310,7 +311,13 @@ func c20Inputs(loader string, r *rand.Rand, n int) [][]byte {
 		// the targeted documents of the acceptance check (empty scopes, unbalanced brackets, cut-off
 		// rules, boundary literals, every escape class): 25 verbatim, and all of them as seeds
 		for i := 0; i < 25; i++ {
-			out = append(out, []byte(c17Targeted[r.Intn(len(c17Targeted))]))
+			_ = r.Intn(len(c17Targeted)) // (kept: the draws that follow stay what they were)
+		}
+		// every tenth targeted document, a different tenth per case: ten GRL cases cover them all
+		for i := range c17Targeted {
+			if i%10 == grlChunk%10 {
+				out = append(out, []byte(c17Targeted[i]))
+			}
 		}
 		for i := 0; i < 6; i++ {
 			seeds = append(seeds, []byte(c17Targeted[r.Intn(len(c17Targeted))]))
@@ -404,7 +411,7 @@ func runC20Case(c *Ctx, idx int) *CaseResult {
 	cr := &CaseResult{}
 	loader := c20Loaders[idx%len(c20Loaders)]
 	r := c.Rng(idx, 0)
-	inputs := c20Inputs(loader, r, c20Batch)
+	inputs := c20Inputs(loader, r, c20Batch, idx/len(c20Loaders))
 	dir, err := os.MkdirTemp(c20WorkDir(), fmt.Sprintf("%s.%d.", loader, idx))
 	if err != nil {
 		cr.inconclusive("cannot create work directory")
